@@ -239,10 +239,12 @@ def rule_cadence(ctx):
     f = tu2.func('reb_simulation_integrate_raw')
     n += 1
     top = cfront.body(f).get('inner', [])
-    li = [i for i, s in enumerate(top) if s.get('kind') == 'WhileStmt'][0]
+    from .. import normal
+    li, _cond, _items = normal.main_loop(top, 'reb_simulation_step')
+    anchor(li is not None, 'the loop of reb_simulation_integrate_raw that calls reb_simulation_step')
     def calls(nodes):
         return [callee_name(e) for s in nodes for e in walk(s) if e.get('kind') == 'CallExpr']
-    inloop = calls([top[li]['inner'][1]])
+    inloop = calls(_items)
     if 'reb_simulationarchive_heartbeat' not in inloop or inloop.index('reb_simulationarchive_heartbeat') > inloop.index('reb_simulation_step'):
         ctx.report('R06.5', 'integrate:heartbeat-before-step', 'src/rebound.c reb_simulation_integrate_raw', 'the archive heartbeat does not run before each step')
     if 'reb_simulationarchive_heartbeat' not in calls(top[li + 1:]):
